@@ -866,13 +866,52 @@ def _shared_dependency_pipeline(rng):
     return {"funcs": fs}
 
 
+def _cross_group_pipeline(rng):
+    """Two (or three) combinable groups that exchange an INTERIOR output: the producer group {g_in -> g_head} (root
+    argument x) computes the interior output `inner`, which a function INSIDE the consumer group
+    {c_in(y, inner) -> c_mid -> c_head(g_head, c_mid)} (root arguments x, y) takes - with or without a default for it.
+    The names are chosen so that the head of the consumer group sorts alphabetically BEFORE the head of the producer
+    group, or after it (simplified_pipeline orders the groups by the head's output name, not topologically); every
+    output that another group consumes has to stay an output of the NestedPipeFunc that computes it."""
+    def fn(name, outs, params, sigd=None, defs=None):
+        return {"name": name, "outs": outs, "params": [[p, p] for p in params], "sigd": sigd or {}, "defs": defs or {},
+                "bound": {}}
+    consumer_first = rng.random() < 0.65
+    if consumer_first:
+        c_in, c_mid, c_head, inner, g_head, extra = "o1", "o2", "o3", "o5", "o8", "o9"
+    else:
+        inner, g_head, c_in, c_mid, c_head, extra = "o0", "o1", "o4", "o5", "o6", "o9"
+    inner_outs = [inner] if rng.random() < 0.7 else sorted([inner, extra])      # the interior output may be a tuple member
+    how = rng.choice(["none", "none", "sig", "defs"])                           # default for the consumed interior name
+    sigd = {inner: "d_" + inner} if how == "sig" else {}
+    defs = {inner: "d_" + inner} if how == "defs" else {}
+    fs = [fn("f0", inner_outs, ["x"]),
+          fn("f1", [g_head], [inner] if rng.random() < 0.8 else [inner, "x"]),
+          fn("f2", [c_in], ["y", inner], sigd, defs),
+          fn("f3", [c_mid], [c_in]),
+          fn("f4", [c_head], [g_head, c_mid])]
+    target = c_head
+    if rng.random() < 0.35:                                                      # an uncombined consumer downstream
+        fs.append(fn("f5", ["o7" if consumer_first else "o8"], [c_head, "w"]))
+        if rng.random() < 0.5:
+            target = fs[-1]["outs"][0]
+    rng.shuffle(fs)
+    return {"funcs": fs}, [{"op": "simplify", "o": target, "cons": rng.random() < 0.3}]
+
+
 def gen_rewrite_case(rng, tier):
     if rng.random() < 0.03:
         pd = _shared_dependency_pipeline(rng)
         o = rng.choice(["o3", "o3", "o4"]) if any(f["name"] == "f4" for f in pd["funcs"]) else "o3"
         return {"kind": "rewrite", "p": pd, "ops": [{"op": "simplify", "o": o, "cons": rng.random() < 0.5}], "calls": [],
                 "mapin": None}
-    pd = pipegen.gen_pipeline(rng, nmax=5, nmin=1 if rng.random() < 0.1 else 2)
+    forced = None
+    if rng.random() < 0.06:
+        pd, forced = _cross_group_pipeline(rng)
+        if rng.random() < 0.25:
+            forced = forced + [rng.choice([{"op": "copy"}, {"op": "pickle"}])]
+    else:
+        pd = pipegen.gen_pipeline(rng, nmax=5, nmin=1 if rng.random() < 0.1 else 2)
     with _quiet(), warnings.catch_warnings():
         warnings.simplefilter("ignore")
         try:
@@ -880,14 +919,14 @@ def gen_rewrite_case(rng, tier):
             pl = pipegen.build(pd).pipeline
         except Exception:  # noqa: BLE001
             return None
-        nops = rng.choice([1, 1, 2, 2, 3])
+        nops = len(forced) if forced else rng.choice([1, 1, 2, 2, 3])
         ops = []
         names0 = _names(pl)
         rens = []
         ok = True
         for i in range(nops):
             o = r = None
-            for _attempt in range(8):
+            for _attempt in range(0 if forced else 8):
                 o = _gen_op(rng, pl, i)
                 r = _op_renaming(pl, o)
                 cur = _names(pl)
@@ -901,6 +940,8 @@ def gen_rewrite_case(rng, tier):
                     if rng.random() < 0.1:
                         break
                     o = None
+            if forced:
+                o, r = forced[i], {}
             if o is None:
                 o, r = {"op": "copy"}, {}
             ops.append(o)
@@ -913,7 +954,7 @@ def gen_rewrite_case(rng, tier):
         rho = _Rho(names0, rens)
         calls = _gen_calls(rng, b0, pl, rho, tier) if ok else []
         mapin = None
-        if ok and rng.random() < 0.5:
+        if ok and (forced or rng.random() < 0.5):
             try:
                 roots0 = list(b0.pipeline.topological_generations.root_args)
                 in0 = [[r_, pipegen.value_for(rng, r_)] for r_ in roots0]
